@@ -121,6 +121,9 @@ def check(eng, res):
     ns = c04.fresh_other(eng, res)
     res.floor("R-FRESH-OTHER", ns, 3)
     accessors(eng, res)
+    from ..memo import memo_rules
+
+    memo_rules(eng, res, only_classes=["MolGen"])
     fragment_template(eng, res)
     nw = c04.index_writers(eng, res)
     res.floor("R-INDEX-WRITERS", nw, 4)
